@@ -263,6 +263,19 @@ func init() {
 	})
 }
 
+func init() {
+	props = append(props, prop{
+		ID: "C15", Title: "every delivered line is a single well-formed IRC line", Level: "exploration",
+		LevelText:  "Generated POST bodies (JSON with control characters incl. CR/LF/NUL and whole forged second lines, over-long ASCII, multi-byte characters straddling byte 510, arbitrary strings; raw bodies that are invalid JSON, invalid UTF-8 or exceed the body limit) and generated quit messages of DELETE requests are sent through the real HTTP handlers of an in-process node by a channel member, a registered outsider and an unregistered session; every message in the output stream and every message served to two observing sessions by GET .../messages (after JSON transport) is checked against the re-stated line grammar.",
+		LevelNote:  "A prefix is required on relayed client commands and checked where present elsewhere (the closing ERROR and the services burst are emitted without prefix by fixed templates). A handler panic exits the process (exitOnRecover) and shows up as an inconclusive shard, not as a violation line.",
+		Technique:  "property-based testing (rapid) of the HTTP handlers with a validity predicate over every delivered line; native fuzzing of the POST body in the thorough tier",
+		DesignRef:  "4/C15",
+		Rule:       "case = 1-20 generated requests (JSON post / raw post / DELETE with quit message) from three poster roles; every output message is an evaluation (counter lines_checked_in_output_stream); non-trivial = a request whose text contains CR/LF/NUL or exceeds 510 bytes AND at least one line was delivered to another session; distinct = hash of the request list",
+		Assumptions: []string{"single voter raft in-process; PostMessageCooloff=0"},
+		Units:      []unit{nodeUnit("node", "^TestVerifC15$", 2400, 40000)},
+	})
+}
+
 // notApplicable lists properties that are not claimed (yet), with the reason.
 var notApplicable = map[string]string{}
 
